@@ -228,7 +228,11 @@ def main():
             json.dump(rec, f, indent=1, default=str)
         suffix = "" if witness else " no-failing-input-found"
         out_lines.append("VIOLATION property=%s replay=%s obligation=%s%s" % (pid, rp, name, suffix))
+    seen_checks = set()
     for v in bviol:
+        if v["check"] in seen_checks:
+            continue          # one VIOLATION line (first witness) per bounded clause
+        seen_checks.add(v["check"])
         nviol += 1
         rp = os.path.join("replays", pid, _safe("bounded-" + v["check"]) + ".json")
         rec = dict(property=pid, obligation=v["check"], kind="bounded-contract-violation", input=v.get("input"), observed=v.get("observed"),
